@@ -32,6 +32,27 @@ CHECKS.update({
          "spec/layout.json (documented Row,sBit,len frozen from the pinned tree, normalisations listed in the file); SetLen of a Buffer-backed element is an allocator.", "5/C09"),
 })
 
+CHECKS.update({
+ "C01": ("codec", "resource monitor: journalled, recover()-wrapped decode calls on hostile inputs; two-stage hang rule; ReadMemStats allocation meter on a solo shard",
+         "Every message × slot × declared length (0..min(max+1,300), boundaries, 4095, 65534, 65535 in thorough) × every truncation point, byte-level mutations of plans and repository samples, random strings behind every header and 70 000-octet inputs go through the three decode entry points; panics, runtime fatals, hangs (no journal progress, then CPU-budgeted replay alone) and per-call allocation above 8 KiB + 64·len + 3·64 KiB / 256 + 4·len mallocs are violations. Held on the inputs executed.",
+         "Work is observed through termination and allocation counters only; table of slots from spec/messages.json drives the enumeration.", "5/C01"),
+ "C02": ("codec", "law monitor: generated well-formed messages (decoder normal form) encoded and decoded, reflect.DeepEqual with the original",
+         "All 45 definitions × presence subsets (all 2^k up to k=8/12, structured patterns beyond) × {min, max, interior} lengths × content shapes, plus random plans, through three API paths; the decoded value must be deep-equal to the generated one. Sampled space, every slot at min/max/interior by construction.",
+         "Normal form and bounds from spec/messages.json; well-formedness exactly as in the statement.", "5/C02"),
+ "C03": ("codec", "law monitor: decode→encode→decode→encode fixed point on every accepted input; byte equality for generator-known canonical inputs",
+         "Every input PlainNasDecode accepts among generated plans (reordered, duplicated, unknown identifiers, look-alikes, splices, flips) and mutated repository samples is re-encoded twice; values and bytes must be stable, and inputs flagged canonical by the generator must re-encode byte-exactly.",
+         "Canonicity known by construction from the table, never inferred from the library.", "5/C03"),
+ "C04": ("codec", "reference-model monitor: real decoder/encoder vs. table-driven reference codec on strings built from known identifiers (all boundary lengths, orders, duplicates, every truncation)",
+         "For every message × slot × boundary length × context and every prefix of each string, accept/reject and each slot's presence, identifier, Len and value are compared with an independent table-driven decoder; emitted bytes of well-formed messages are compared with a reference encoder; live struct layout and identifier constants are compared with the table. Dynamic half of the property only.",
+         "spec/messages.json is a frozen, reviewed extraction of the pinned tree's tables (TS 24.501 not available offline); the static 'all 90 generated functions / AST' half is not decided by this technique.", "5/C04"),
+ "C05": ("codec", "exhaustive routing grid: all 65 536 (first octet, type) pairs at both header offsets × bodies, short inputs, encode over all 256 types per family, judged against the frozen type table",
+         "Exhaustive over (first octet, message type, offset); bodies sampled (bare header, minimal valid body, random). Exactly one body pointer, the right one, header view = input header = body header octets; errors for everything unassigned, short, nil or empty; symmetric on encode.",
+         "Assigned types from spec/messages.json.", "5/C05"),
+ "C10": ("codec", "state monitor: input/message/buffer snapshots, address-range disjointness by reflection, bidirectional mutation probes, double-run determinism",
+         "Accepted and rejected inputs through three entry points with guarded spare capacity; every []byte reachable from the decoded message is checked for overlap with the input's backing array and by flipping all octets both ways; encode checked against deep snapshots with pre-filled buffers and spare capacity.",
+         "Reflection sees every exported field; unexported state does not exist in these types.", "5/C10"),
+})
+
 NOT_YET = {
 }
 
